@@ -7,10 +7,7 @@ License: 3-clause BSD. (See the COPYRIGHT file)
 
 from __future__ import annotations
 
-from exabgp.protocol.family import AFI
-
 from exabgp.protocol.ip import IP
-from exabgp.bgp.message.update.attribute import NextHopSelf
 from exabgp.configuration.core.parser import Tokeniser
 
 # VPLS parameter maximum value (16-bit field)
@@ -51,9 +48,11 @@ def vpls_base(tokeniser: Tokeniser) -> int:
     # vpls.base = number
 
 
-def next_hop(tokeniser: Tokeniser) -> NextHopSelf | IP:
+def next_hop(tokeniser: Tokeniser) -> IP:
     value = tokeniser()
 
     if value.lower() == 'self':
-        return NextHopSelf(AFI.ipv4)
+        # "self" is resolved with the address family of the route, and no BGP tcp session is of the l2vpn family:
+        # it could never be resolved (TypeError once the route reached a neighbor), refuse it when it is written
+        raise ValueError("'self' is not a valid next-hop for an l2vpn vpls route\n  Format: <ip> (e.g., 192.0.2.1)")
     return IP.from_string(value)
